@@ -459,6 +459,22 @@ def gen_values(rng, N, kinds, d):
     return "tensor", AS, A
 
 
+def gen_lattice_record(rng, d):
+    """Scale: a full lattice of more than a thousand selected particles with two very coarse bins, so that one particle has
+    hundreds of selected neighbours in one bin (narrow accumulators).  Decided by the lattice shortcut of the specification
+    (Conditional!WHistLat, tied to the pair loop by LatticeLemma)."""
+    a, S = 10, 10
+    n = [11, 11, 11] if d == 3 else rng.choice([[37, 37], [35, 39]])
+    wn = 23 if d == 3 else 83
+    H = [[(n[i] * a if i == j else 0) for j in range(d)] for i in range(d)]
+    import itertools
+    pos = [[a * x for x in site] for site in itertools.product(*[range(k) for k in n])]
+    rng.shuffle(pos)
+    N = len(pos)
+    return {"op": "gr", "H": H, "ppp": [1] * d, "S": S, "types": [1] * N, "pos": pos, "wn": wn, "sharp": 0,
+            "kind": "bool", "AS": 1, "A": [[1, 0]] * N, "lat": {"n": n, "a": a}}
+
+
 def gen_gr_record(rng):
     d = rng.choice([2, 3])
     S = 100 if d == 2 else 10
@@ -844,6 +860,11 @@ def run(tier, replay=None):
         rec = gen_gr_record(rng) if i % 2 == 0 else gen_sq_record(rng)
         ctxs.append(observe(rec))
         recs.append(rec)
+    for d in ((3, 2) if tier == "quick" else (3, 2, 2)):                                  # scale (see gen_lattice_record)
+        rec = gen_lattice_record(rng, d)
+        at = 0 if d == 3 else len(recs)             # in different chunks of the parallel trace validation
+        ctxs.insert(at, observe(rec))
+        recs.insert(at, rec)
     nses = 0
     for sid in range(6 if tier == "quick" else 60):       # multi-call sessions on shared objects
         r2, c2 = gen_session(rng, sid + 1)
